@@ -42,7 +42,10 @@ CHECKS = {
         "exactly), and that segment is exactly filter (Equals key) of the whole index when the index is laid out less*/equal*/greater* for the key (C03_eq_is_filter). "
         "IndexedSelectEq / PKSelect with asDbKey (collation and direction per index column) are in the executable model and are compared on every run with SQLite's "
         "WHERE (+expr COLLATE c) IS ? ... ORDER BY index order, for stored keys, every prefix length and neighbour keys.",
-   note="That a SQLite-written index is laid out less*/equal*/greater* for a key with matching flags follows from C11 (comparison is SQLite's total preorder); the link is validated by the oracle, the three_runs hypothesis is not derived in Coq yet.",
+   note="The layout hypothesis is derived in Coq from C11 (Proofs/SortedP.v): an index whose entries are sorted entry to entry by the index's own order (per column SQLite's order under the "
+        "column's collation, DESC reversed, lexicographic; transitivity from the total preorder) is less*/equal*/greater* for every key carrying the index's collations and directions on a "
+        "prefix of its columns (C03_sorted_layout), hence ScanEq returns exactly filter (Equals key) of the index (C03_scan_eq_sorted). That a SQLite-written index IS sorted that way is "
+        "SQLite's invariant, validated by the oracle comparison on every run.",
    technique="Coq proof (ScanEq = filter on a sorted index) + differential execution model vs Go vs SQLite",
    design="DESIGN.md section 6, C03"),
  "C04": dict(
@@ -71,7 +74,8 @@ CHECKS = {
         "(C13_itermin, C13_scan_min); ScanRange / ScanEq deliver the take_while segments of it (C13_scan_range, C13_scan_eq), which are the filters 'not less than' / 'equal' when "
         "the scan is ordered for the key (C13_min_is_filter, C13_eq_is_filter). Every run: cut points at every interior-page entry, its neighbours, first/last/random entries, every "
         "prefix length, neighbour values, over-long keys, against the reference filter of the implementation's own full scan (independent comparator) and the extracted model.",
-   note="Monotonicity of Search(key) along a SQLite-written index follows from C11; validated on every run (the check verifies the full scan is sorted by the index order).",
+   note="Monotonicity of Search(key) along an index sorted entry to entry by its own order is derived from C11 in Coq (C13_sorted_mono, C13_scan_min_sorted: ScanMin = the filter 'not less than "
+        "the key' of the full scan). That a SQLite-written index is sorted that way is SQLite's invariant; the check verifies on every run that the full scan is sorted by the index order.",
    technique="Coq proof (bisection lemma + induction over the depth budget) + differential execution model vs Go vs reference filter",
    design="DESIGN.md section 6, C13"),
  "C17": dict(
